@@ -179,7 +179,7 @@ class LMInterp(guards.GInterp):
                 return acc
             return sum(recv, sp.Integer(0))
         if name in ("transpose", "clone", "clone_owned", "into_owned", "lu", "full_piv_lu", "qr", "row", "column", "len", "nrows", "ncols", "iter", "as_slice",
-                    "solve_mut", "modulus_squared", "real", "norm_squared"):
+                    "solve_mut", "modulus_squared", "real", "norm_squared", "set_column", "set_row"):
             v = self.ev(n["recv"])
             if isinstance(v, sp.MatrixBase):
                 if name == "transpose":
@@ -202,6 +202,16 @@ class LMInterp(guards.GInterp):
                     return list(v)
                 if name == "norm_squared":
                     return sum((x ** 2 for x in v), sp.Integer(0))
+            if isinstance(v, sp.MatrixBase) and name in ("set_column", "set_row"):
+                i = int(self.ev(n["args"][0]))
+                src = self.ev(n["args"][1])
+                if not isinstance(src, sp.MatrixBase):
+                    raise sym.Unsupported(n, "%s from a non-matrix" % name)
+                if name == "set_column":
+                    v[:, i] = sp.Matrix(src).reshape(v.shape[0], 1)
+                else:
+                    v[i, :] = sp.Matrix(src).reshape(1, v.shape[1])
+                return None
             if isinstance(v, Factor) and name == "solve_mut":
                 b = self.ev(n["args"][0])
                 if not isinstance(b, sp.MatrixBase):
@@ -364,7 +374,7 @@ class NoHooks(LMInterp):
         self.lazy_hooks.pop("optimize::jac_analytic", None)
 
 
-def check_coverage(F, run, prop_rule, path, kind):
+def check_coverage(F, run, prop_rule, path, kind, moments=False):
     """Every entry (row, col) of the Jacobian is written, from the samples of its own row/column — by evaluating the provider at a concrete
     shape (3 data points × 2 parameters, or 2×2 for the square system Jacobian) with sentinel entries in the output matrix.
     kind: 'lm-fd' (mat[(r,c)] from f(xs[r], p ± h e_c)), 'lm-analytic' (mat[(r,c)] = jac(xs[r], p)[c]), 'roots-fd' (returned S×S matrix)."""
@@ -407,6 +417,21 @@ def check_coverage(F, run, prop_rule, path, kind):
         run.fail(prop_rule, path, "coverage:shape", where, "the provider does not produce a %d×%d matrix" % (rows, cols))
         return
     run.check(mzero(pv - p), prop_rule, path, "coverage:point-restored", where, "the evaluation point is left at %s after the Jacobian has been formed" % list(pv))
+    if moments and kind in ("lm-fd", "roots-fd"):
+        # the stencil of entry (0, 0) as Σ w_k f(x + δ_k e_0): Σ w_k = 0 and Σ w_k δ_k = 1 (same obligations and keys as rules/fdjac.py)
+        e00 = sp.expand(mat[0, 0])
+        atoms = sorted(e00.atoms(sp.core.function.AppliedUndef), key=str)
+        ws = {a: sp.simplify(e00.coeff(a)) for a in atoms}
+        rest = sp.expand(e00 - sum(ws[a] * a for a in atoms))
+        run.check(rest == 0 and len(atoms) >= 2, prop_rule, path, "linear", where, "entry (0,0) is not a combination of at least two function samples: %s" % e00)
+        off = 1 if kind == "lm-fd" else 0
+        deltas = {a: sp.expand(a.args[off] - p[0]) for a in atoms}
+        s0 = sp.simplify(sum(ws.values()))
+        s1 = sp.simplify(sum(ws[a] * deltas[a] for a in atoms))
+        desc = " + ".join("(%s)·f(x + (%s)·e)" % (ws[a], deltas[a]) for a in atoms)
+        run.check(s0 == 0, prop_rule, path, "sum-of-weights", where,
+                  "finite-difference weights sum to %s, not 0: %s is not a difference quotient (the samples are added instead of subtracted?)" % (s0, desc), sample=desc)
+        run.check(s1 == 1, prop_rule, path, "first-moment", where, "Σ weight·perturbation = %s, not 1: %s does not approximate the derivative" % (s1, desc))
     for r in range(rows):
         for c in range(cols):
             e = sp.expand(mat[r, c])
